@@ -27,6 +27,24 @@ def attach_order_rule(ctx, rule):
                                 "field is unknown, so the writer is not opened and blocks decoded before the FDT are never flushed" % fld, loc(late[0]["sp"]))
         elif accs:
             rule.ok(key, "%d assignment(s), none after the call" % len(accs), loc(accs[0]["sp"]))
+    replays = set(s.bb for s in call_sites(f, lambda p, c: p == OR + "::push_from_cache"))
+    for s in inits:
+        ok, w = fl.postdominated_by(s.bb, lambda b: b in replays)
+        if ok and replays:
+            rule.ok("attach_fdt: init_object_writer -> push_from_cache", "", s.loc)
+        else:
+            rule.violation("attach_fdt: init_object_writer -> push_from_cache", "packets cached before the FDT are not replayed once the "
+                                                                            "object can be decoded: a late joiner loses them", s.loc)
+    # blocks that were decoded before the writer existed are flushed right after the writer is opened: write_blocks(0, ..)
+    flush = set(s.bb for s in call_sites(f, lambda p, c: p == OR + "::write_blocks") if show(s.expr[2][1]) == "0")
+    for s in inits:
+        ok, w = fl.postdominated_by(s.bb, lambda b: b in flush)
+        key = "attach_fdt: init_object_writer -> write_blocks(0)"
+        if ok and flush:
+            rule.ok(key, "", s.loc)
+        else:
+            rule.violation(key, "source blocks completed before the FDT was attached (in-band OTI, late join) are never handed to the "
+                              "writer: write_blocks(0, ..) does not follow the opening of the writer; the object stays Receiving for ever", s.loc)
     # the instance id is set on every path to the call
     ids = set(a["bb"] for a in field_accesses(prog, OR, "fdt_instance_id", funcs=[f]) if a["kind"] == "assign" and show(a["value"]).startswith("Option::Some"))
     for c in inits:
@@ -71,24 +89,6 @@ def run(ctx):
     ctx.analysed(f.path)
     fl = Flow(f.body)
     inits = call_sites(f, lambda p, c: p == OR + "::init_object_writer")
-    replays = set(s.bb for s in call_sites(f, lambda p, c: p == OR + "::push_from_cache"))
-    for s in inits:
-        ok, w = fl.postdominated_by(s.bb, lambda b: b in replays)
-        if ok and replays:
-            r2.ok("attach_fdt: init_object_writer -> push_from_cache", "", s.loc)
-        else:
-            r2.violation("attach_fdt: init_object_writer -> push_from_cache", "packets cached before the FDT are not replayed once the "
-                                                                            "object can be decoded: a late joiner loses them", s.loc)
-    # blocks that were decoded before the writer existed are flushed right after the writer is opened: write_blocks(0, ..)
-    flush = set(s.bb for s in call_sites(f, lambda p, c: p == OR + "::write_blocks") if show(s.expr[2][1]) == "0")
-    for s in inits:
-        ok, w = fl.postdominated_by(s.bb, lambda b: b in flush)
-        key = "attach_fdt: init_object_writer -> write_blocks(0)"
-        if ok and flush:
-            r2.ok(key, "", s.loc)
-        else:
-            r2.violation(key, "source blocks completed before the FDT was attached (in-band OTI, late join) are never handed to the "
-                              "writer: write_blocks(0, ..) does not follow the opening of the writer; the object stays Receiving for ever", s.loc)
     attach_order_rule(ctx, r2)
     parts = set(s.bb for s in call_sites(f, lambda p, c: p == OR + "::init_blocks_partitioning"))
     for s in inits:
